@@ -66,7 +66,9 @@ class Atoms:
                 "id": i, "dim": d["dim"], "mag": d["mag"], "has_origin": d["has_origin"], "label": d["label"],
                 "cxx_unit": f"au::{u['name']}{{}}", "cxx_type": f"au::{u['name']}",
                 "cxx_maker": f"au::{u['maker']}" if u["maker"] else None,
-                "cxx_symbol": f"au::symbols::{u['symbol']}" if u["symbol"] else None, "prefix": None, "base": u["name"]}
+                "cxx_symbol": f"au::symbols::{u['symbol']}" if u["symbol"] else None,
+                "cxx_singular": f"au::{u['singular']}" if u.get("singular") else None,
+                "cxx_constant": f"au::make_constant(au::{u['name']}{{}})", "prefix": None, "base": u["name"]}
         for j, (key, p, u) in enumerate(self.prefixed):
             d = self.info[key]
             self.atoms[key] = {
@@ -74,6 +76,8 @@ class Atoms:
                 "cxx_unit": f"au::{p['name']}<au::{u['name']}>{{}}", "cxx_type": f"au::{p['name']}<au::{u['name']}>",
                 "cxx_maker": f"au::{p['applier']}(au::{u['maker']})" if u["maker"] else None,
                 "cxx_symbol": f"au::{p['applier']}(au::symbols::{u['symbol']})" if u["symbol"] else None,
+                "cxx_singular": f"au::{p['applier']}(au::{u['singular']})" if u.get("singular") else None,
+                "cxx_constant": f"au::make_constant(au::{p['name']}<au::{u['name']}>{{}})",
                 "prefix": p, "base": u["name"]}
 
     def headers(self):
@@ -230,10 +234,30 @@ def cxx_pow(x, q):
 
 
 def cxx(t, A, spelling):
-    """C++ expression for a tree in one spelling: 'unit' | 'maker' | 'symbol'. None if an atom lacks it."""
+    """C++ expression for a tree in one spelling: 'unit' | 'maker' | 'symbol' | 'constant' (all four support the whole algebra),
+    'singular' (SingularNameFor: products and integer powers only) or 'mixed' (maker / singular, singular * maker at the top).
+    None if an atom lacks the spelling or the spelling does not support the tree's shape."""
     k = t[0]
+    if spelling == "singular":
+        if k == "atom":
+            return A.atoms[t[1]].get("cxx_singular")
+        if k == "mul":
+            a, b = cxx(t[1], A, spelling), cxx(t[2], A, spelling)
+            return None if a is None or b is None else f"({a} * {b})"
+        if k == "pow" and Fraction(t[2]).denominator == 1:
+            a = cxx(t[1], A, spelling)
+            return None if a is None else f"pow<{Fraction(t[2]).numerator}>({a})"
+        return None
+    if spelling == "mixed":
+        if k == "div":
+            a, b = cxx(t[1], A, "maker"), cxx(t[2], A, "singular")
+            return None if a is None or b is None else f"({a} / {b})"
+        if k == "mul":
+            a, b = cxx(t[1], A, "singular"), cxx(t[2], A, "maker")
+            return None if a is None or b is None else f"({a} * {b})"
+        return None
     if k == "atom":
-        return A.atoms[t[1]]["cxx_" + spelling]
+        return A.atoms[t[1]].get("cxx_" + spelling)
     if k in ("mul", "div"):
         a, b = cxx(t[1], A, spelling), cxx(t[2], A, spelling)
         if a is None or b is None:
